@@ -1,7 +1,9 @@
-/- Driver ops for Connector.  Ops: connector.state, connector.step, connector.judge, connector.instance, connector.bounds -/
+/- Driver ops for Connector.  Ops: connector.state, connector.step, connector.judge, connector.instance, connector.bounds,
+connector.solve -/
 import JumanjiModel.Bridge.Json
 import JumanjiModel.Env.Connector.Model
 import JumanjiModel.Env.Connector.Bounds
+import JumanjiModel.Env.Connector.EpisodeLemmas
 open Lean Jb
 
 namespace Jb.Connector
@@ -113,7 +115,24 @@ def opBounds : Op := fun j => do
   let cfg ← getCfg (← field j "cfg")
   pure (jBounds (obsBounds cfg))
 
+/-- C10 operational solvability: {cfg, state (reset state with "solved")} → the explicit solving episode of
+`Props.C10.connector_walk_board_operationally_solvable` (`solveActs`), whether the certificate accepts the board,
+whether the episode replayed by the rules ends in a complete solution, and the per-agent returns of the episode
+under the L1 model (`returnL1`, `Props.C08.connector_solving_episode_return_explicit`) -/
+def opSolve : Op := fun j => do
+  let cfg ← getCfg (← field j "cfg")
+  let sj ← field j "state"
+  let s ← getState cfg sj
+  let solved ← getList (getList getInt) (← field sj "solved")
+  let acts := solveActs cfg.n cfg.k s solved
+  let sT := finalL2 cfg s acts
+  pure (jObj [("accepted", jBool (freshB cfg.n cfg.k s && solvedBoardB cfg.n cfg.k s solved)),
+              ("actions", jList jInts acts),
+              ("final", jState sT),
+              ("solution", jBool (solutionB cfg.n cfg.k sT)),
+              ("returns", jRats ((List.range cfg.k).map (returnL1 cfg s acts)))])
+
 def ops : List (String × Op) :=
   [("connector.step", opStep), ("connector.state", opState), ("connector.judge", opJudge),
-   ("connector.instance", opInstance), ("connector.bounds", opBounds)]
+   ("connector.instance", opInstance), ("connector.bounds", opBounds), ("connector.solve", opSolve)]
 end Jb.Connector
